@@ -313,6 +313,7 @@ Life(k, x, s, n) ==
        Call("Sign", k, n, NoPass, NoArm),
        Call("Update", k, n, s, NoArm),
        Call("Update", k, s, n, NoArm),
+       Call("ExportArm", k, s, n, NoArm),
        Call("Sign", k, s, NoPass, NoArm),
        Call("Sign", k, n, NoPass, NoArm),
        Call("ExportObj", k, s, NoPass, NoArm),
